@@ -655,8 +655,8 @@ func c02Leaf(r *verifkit.Rand, w *vWorld, tag string) *vCert {
 	sp := vSpec{cn: tag, key: keys[r.Intn(len(keys))], issuer: issuer, keyUsage: stdx509.KeyUsageDigitalSignature,
 		ekus: c02EKUChoices[r.Intn(len(c02EKUChoices))], notAfter: c02NotAfters[r.Intn(len(c02NotAfters))]}
 	switch x := r.Intn(20); {
-	case x < 9:
-	case x < 16:
+	case x < 10:
+	case x < 17:
 		sp.poison = vPoisonOK
 	default:
 		sp.poison = vPoisonNonCritical + r.Intn(4)
@@ -844,77 +844,80 @@ func c02Submission(r *verifkit.Rand, w *vWorld, tag string) c02Sub {
 	return s
 }
 
-func c02Bound(r *verifkit.Rand, na time.Time) *time.Time {
-	var t time.Time
-	switch r.Intn(7) {
-	case 0:
-		return nil
-	case 1:
-		t = na.Add(-time.Second)
-	case 2:
-		t = na.Add(-time.Nanosecond)
-	case 3:
-		t = na
-	case 4:
-		t = na.Add(time.Nanosecond)
-	case 5:
-		t = na.Add(time.Second)
-	default:
-		t = na.Add(time.Duration(r.I64n(int64(2000*time.Hour))) - 1000*time.Hour)
+// c02Bound picks a window bound / clock value next to NotAfter: on the passing side with probability 5/6.
+// before=true: the passing side is "at or before NotAfter" (window start, clock for reject-expired);
+// before=false: the passing side is "strictly after NotAfter" (window limit, clock for reject-unexpired).
+func c02Bound(r *verifkit.Rand, na time.Time, before bool) time.Time {
+	le := []time.Duration{-time.Second, -time.Nanosecond, 0, -time.Duration(1 + r.I64n(int64(1000*time.Hour)))}
+	gt := []time.Duration{time.Nanosecond, time.Second, time.Duration(1 + r.I64n(int64(1000*time.Hour)))}
+	pass, fail := le, gt
+	if !before {
+		pass, fail = gt, le
 	}
-	return &t
+	if r.Intn(6) == 0 {
+		return na.Add(fail[r.Intn(len(fail))])
+	}
+	return na.Add(pass[r.Intn(len(pass))])
 }
 
 var c02ExtChoices = [][]asn1.ObjectIdentifier{{asn1.ObjectIdentifier{1, 2, 3, 4, 5, 6}}, {asn1.ObjectIdentifier{1, 3, 6, 1, 4, 1, 11129, 2, 4, 3}},
-	{asn1.ObjectIdentifier{2, 5, 29, 19}}, {asn1.ObjectIdentifier{9, 9, 9}, asn1.ObjectIdentifier{2, 5, 29, 37}}, {asn1.ObjectIdentifier{9, 9, 9}}}
+	{asn1.ObjectIdentifier{2, 5, 29, 19}}, {asn1.ObjectIdentifier{9, 9, 9}, asn1.ObjectIdentifier{2, 5, 29, 37}}}
+var c02ExtAbsent = [][]asn1.ObjectIdentifier{{asn1.ObjectIdentifier{9, 9, 9}}, {asn1.ObjectIdentifier{9, 9, 9}, asn1.ObjectIdentifier{2, 5, 29, 99}}}
 var c02OptEKUs = [][]x509.ExtKeyUsage{{x509.ExtKeyUsageServerAuth}, {x509.ExtKeyUsageClientAuth}, {x509.ExtKeyUsageAny},
 	{x509.ExtKeyUsageServerAuth, x509.ExtKeyUsageCertificateTransparency}, {x509.ExtKeyUsageOCSPSigning}}
 
-// c02OptsFor picks option values for the switch pattern `bits` (bit i set = option i in force).
-func c02OptsFor(r *verifkit.Rand, bits int, na time.Time) c02Opts {
+// c02OptsFor picks option values for the switch pattern `bits` (bit i set = option i in force); the values
+// sit at the boundaries next to the leaf's NotAfter and are mostly on the admitting side.
+func c02OptsFor(r *verifkit.Rand, bits int, leaf *x509.Certificate) c02Opts {
+	na := leaf.NotAfter
 	o := c02Opts{}
-	switch r.Intn(8) {
-	case 0:
-		o.now = na.Add(-time.Second)
-	case 1:
-		o.now = na.Add(-time.Nanosecond)
-	case 2:
-		o.now = na
-	case 3:
-		o.now = na.Add(time.Nanosecond)
-	case 4:
-		o.now = na.Add(time.Second)
-	case 5: // zero: the code reads the wall clock
-	default:
-		o.now = time.Date(2030, 1, 1, 0, 0, 0, 0, time.UTC)
-	}
 	o.onlyCA = bits&1 != 0
 	o.rejExp = bits&2 != 0
 	o.rejUnexp = bits&4 != 0
+	switch {
+	case o.rejExp && !o.rejUnexp:
+		o.now = c02Bound(r, na, true)
+	case o.rejUnexp && !o.rejExp:
+		o.now = c02Bound(r, na, false)
+	default:
+		switch r.Intn(4) {
+		case 0: // zero: the code reads the wall clock
+		case 1:
+			o.now = c02Bound(r, na, r.Bool())
+		default:
+			o.now = time.Date(2030, 1, 1, 0, 0, 0, 0, time.UTC)
+		}
+	}
 	if bits&8 != 0 {
 		o.ekus = c02OptEKUs[r.Intn(len(c02OptEKUs))]
+		if len(leaf.ExtKeyUsage) > 0 && r.Intn(6) != 0 {
+			o.ekus = []x509.ExtKeyUsage{leaf.ExtKeyUsage[r.Intn(len(leaf.ExtKeyUsage))]}
+			if r.Bool() {
+				o.ekus = append([]x509.ExtKeyUsage{x509.ExtKeyUsageTimeStamping}, o.ekus...)
+			}
+		}
 	}
 	if bits&16 != 0 {
-		o.rejExt = c02ExtChoices[r.Intn(len(c02ExtChoices))]
+		if r.Intn(6) == 0 {
+			o.rejExt = c02ExtChoices[r.Intn(len(c02ExtChoices))]
+		} else {
+			o.rejExt = c02ExtAbsent[r.Intn(len(c02ExtAbsent))]
+		}
 	}
 	if bits&32 != 0 {
-		o.start = c02Bound(r, na)
-		for o.start == nil {
-			o.start = c02Bound(r, na)
-		}
+		t := c02Bound(r, na, true)
+		o.start = &t
 	}
 	if bits&64 != 0 {
-		o.limit = c02Bound(r, na)
-		for o.limit == nil {
-			o.limit = c02Bound(r, na)
-		}
+		t := c02Bound(r, na, false)
+		o.limit = &t
 	}
 	return o
 }
 
 func c02Endpoint(r *verifkit.Rand, k *c02Case) int {
 	ep := r.Intn(3)
-	if len(k.chain) > 0 && k.chain[0] >= 0 && r.Intn(3) > 0 { // mostly the matching endpoint
+	if len(k.chain) > 0 && k.chain[0] >= 0 && r.Intn(6) > 0 { // mostly the matching endpoint
 		ep = 1
 		if k.abs[k.chain[0]].poison == "p11" {
 			ep = 2
@@ -929,7 +932,7 @@ func TestVerifC02(t *testing.T) {
 	r := verifkit.NewRand(verifkit.Seed())
 	e := &c02Env{out: out, r: r, signer: vKeys()[2]}
 	nWorlds := verifkit.N(6, 70)
-	perWorld := verifkit.N(50, 150)
+	perWorld := verifkit.N(120, 200)
 	neutral := c02Opts{now: time.Date(2030, 1, 1, 0, 0, 0, 0, time.UTC)}
 	nCase := 0
 	for wi := 0; wi < nWorlds; wi++ {
@@ -954,16 +957,20 @@ func TestVerifC02(t *testing.T) {
 			if len(k.chain) == 0 || k.chain[0] < 0 {
 				continue
 			}
-			na := k.certs[k.chain[0]].NotAfter
-			if ok && ci%8 == 0 {
+			na := k.certs[k.chain[0]]
+			if ok && ci%20 == 0 {
 				// every combination of the seven option switches on an admissible chain
 				for bits := 0; bits < 128; bits++ {
 					e.eval(k, s.labels, c02OptsFor(r, bits, na), c02Endpoint(r, k))
 				}
 				out.Count("mode:all-option-combinations")
 			} else {
-				for i := 0; i < 3; i++ {
-					e.eval(k, s.labels, c02OptsFor(r, r.Intn(128), na), c02Endpoint(r, k))
+				nv := 3
+				if !ok {
+					nv = 1
+				}
+				for i := 0; i < nv; i++ {
+					e.eval(k, s.labels, c02OptsFor(r, 1<<uint(r.Intn(7))|1<<uint(r.Intn(7)), na), c02Endpoint(r, k))
 				}
 			}
 		}
@@ -991,7 +998,8 @@ func c02Budget(e *c02Env) {
 	root := vIssue(vSpec{cn: "deep root", key: ecKey(), isCA: true, keyUsage: vCAUsage})
 	cas := []*vCert{root}
 	for i := 0; i < 104; i++ {
-		cas = append(cas, vIssue(vSpec{cn: fmt.Sprintf("deep inter %d", i), key: ecKey(), issuer: cas[len(cas)-1], isCA: true, keyUsage: vCAUsage}))
+		cas = append(cas, vIssue(vSpec{cn: fmt.Sprintf("deep inter %d", i), key: ecKey(), issuer: cas[len(cas)-1], isCA: true, keyUsage: vCAUsage,
+			ski: []byte(fmt.Sprintf("deep-ski-%03d", i))}))
 	}
 	for _, d := range []int{3, 48, 49, 50, 97, 98, 99, 100, 101, 102} {
 		leaf := vIssue(vSpec{cn: fmt.Sprintf("deep leaf %d", d), key: ecKey(), issuer: cas[d], keyUsage: stdx509.KeyUsageDigitalSignature})
